@@ -81,6 +81,9 @@ type caseDef struct {
 	// FirstStatus: the first download attempt is answered with this status (206 with half of the file, 202 with a
 	// status document, 204 without body) instead of 200: it is not the file and must not be published.
 	FirstStatus int `json:"first_status,omitempty"`
+	// CorruptFirst: the first attempt delivers a body of the right length that does not match the signed check sum
+	// (signed downloads only): it is rejected and must not have been published at any moment.
+	CorruptFirst bool `json:"corrupt_first,omitempty"`
 }
 
 func (c caseDef) id() string {
@@ -176,11 +179,20 @@ type served struct {
 	closeDelimited bool
 	// firstStatus != 0: the first request is answered with this status and something that is not the file
 	firstStatus int
+	// corruptFirst: the first request gets a body of the right length with other bytes (a damaged mirror)
+	corruptFirst bool
 }
 
 func serve(path string, data []byte, truncateFirst int, closeDelimited ...bool) {
 	sv := &served{data: data, closeDelimited: len(closeDelimited) > 0 && closeDelimited[0]}
 	sv.truncateFirst.Store(int32(truncateFirst))
+	srvFiles.Store(path, sv)
+}
+
+// serveCorruptFirst: the first request gets the right number of wrong bytes, later ones the file.
+func serveCorruptFirst(path string, data []byte) {
+	sv := &served{data: data, corruptFirst: true}
+	sv.truncateFirst.Store(1)
 	srvFiles.Store(path, sv)
 }
 
@@ -201,6 +213,17 @@ func server() *httptest.Server {
 			}
 			sv := v.(*served)
 			b := sv.data
+			if sv.corruptFirst && sv.truncateFirst.Load() > 0 {
+				sv.truncateFirst.Add(-1)
+				bad := append([]byte{}, b...)
+				for i := 0; i < len(bad); i += 97 {
+					bad[i] ^= 0x5a
+				}
+				w.Header().Set("Content-Length", fmt.Sprint(len(bad)))
+				w.Header().Set("Content-Type", "application/octet-stream")
+				_, _ = w.Write(bad)
+				return
+			}
 			if sv.firstStatus != 0 && sv.truncateFirst.Load() > 0 {
 				// the first attempt is answered with another 2xx status and a well-formed body that is not the file
 				sv.truncateFirst.Add(-1)
@@ -597,6 +620,9 @@ func build(c caseDef) (*built, error) {
 		serve(token+"/"+rel, newData, truncated, c.FlakyCloseDelimited)
 		if c.FirstStatus != 0 {
 			serveOddFirst(token+"/"+rel, newData, c.FirstStatus)
+		}
+		if c.CorruptFirst && len(newData) > 0 {
+			serveCorruptFirst(token+"/"+rel, newData)
 		}
 		cleanups = append(cleanups, func() { srvFiles.Delete(token + "/" + rel); srvFiles.Delete(token + "/" + rel + ".sig") })
 		b.exp.MayCreateDirs = []string{filepath.Join(storage, "x")}
